@@ -58,24 +58,28 @@ PROPS = {
         "assumptions": ["gopacket hands each layer LayerPayload() of the previous one (window into the receive buffer)"],
     },
     "C07": {
-        "claim": "For every response layer (24 IPMI/DCMI/RMCP+ layers incl. Full Sensor Record with all four ID-string encodings and every length 0..31, DCMI capabilities for versions 1.0/1.1/1.5, Open Session Response in all its forms) a specification-side record + encoder written from the tables, and a theorem: decoding the encoding of ANY well-formed value yields exactly its fields (every flag bit, 10-bit M/B/accuracy and 4-bit exponents through the C20 two's-complement lemmas, every optional / variable tail), plus rejection theorems (shorter than the minimum, truncated variable tails, wrong payload types, both IPMI checksums, wrapper length field exceeding the data). Models tied to the code by decoding generated spec encodings and comparing every exported field.",
+        "claim": "For every response layer (24 IPMI/DCMI/RMCP+ layers incl. Full Sensor Record with all four ID-string encodings and every length 0..31, DCMI capabilities for versions 1.0/1.1/1.5, Open Session Response in all its forms) a specification-side record + encoder written from the tables, and a theorem: decoding the encoding of ANY well-formed value yields exactly its fields (every flag bit, 10-bit M/B/accuracy and 4-bit exponents through the C20 two's-complement lemmas, every optional / variable tail), plus rejection theorems (shorter than the minimum, truncated variable tails, wrong payload types, both IPMI checksums, wrapper length field exceeding the data). Models tied to the code by decoding generated spec encodings and comparing every exported field."
+          " On top, the HIGH-LEVEL API (Proofs/C07/Api.lean over Proto/Api.lean: every wrapper around SendCommand - bmc.V2Session's twelve methods, V2Sessionless's two, the seven of the DCMI commanders): for every call, a conforming response datagram with code 00h and the specification's encoding of ANY well-formed value makes the call return exactly that value's fields after one transmission of a datagram that opens to the specification's command with the caller's arguments (call_returns_decoded + one instance per call, request_is_the_call, session-less analogues); a non-zero completion code is an error whatever the body (nonzero_code_is_error); for every script a value reaches the caller only from a reply to this very command with code 00h decoded by the call's own response layer (value_only_from_code_zero). Tied to the code by calling the REAL methods on real sessions / session-less transports with scripted replies.",
         "note": "trusted: Lean kernel; Spec/ transcription of the IPMI v2.0 / DCMI tables (PDFs unavailable offline; where the repo's tests pin a reading - DCMI SEL attribute byte order, raw auth status bits, 16-byte AES pads - the spec side follows it and says so); decodeGo models tied by correspondence",
         "technique": "Lean 4 proof (decode(encode v) = v for all well-formed v, per layer; finite bit facts by decide +kernel) + differential correspondence on spec-conforming encodings",
         "ref": "§5 C07",
-        "proofs": ["Bmc.Proofs.C07.Basic", "Bmc.Proofs.C07.Core", "Bmc.Proofs.C07.Sess", "Bmc.Proofs.C07.Sdr", "Bmc.Proofs.C07.Setup", "Bmc.Proofs.C07.Dcmi"],
-        "scenarios": ["dec"],
-        "rule": "as for C05 (scenario dec); class P = inputs produced by the per-layer generator of specification-conforming encodings (reserved bits zero, every optional-tail form) and inputs the specification demands be rejected (below the minimum length, corrupted checksums, excessive length fields); everything else is class M.",
+        "proofs": ["Bmc.Proofs.C07.Basic", "Bmc.Proofs.C07.Core", "Bmc.Proofs.C07.Sess", "Bmc.Proofs.C07.Sdr", "Bmc.Proofs.C07.Setup", "Bmc.Proofs.C07.Dcmi", "Bmc.Proofs.C07.Api"],
+        "scenarios": ["dec", "api"],
+        "rule": "as for C05 (scenario dec); class P = inputs produced by the per-layer generator of specification-conforming encodings (reserved bits zero, every optional-tail form) and inputs the specification demands be rejected (below the minimum length, corrupted checksums, excessive length fields); everything else is class M."
+          " api: every high-level call x {3 suites in session, session-less}: type-directed arguments (0, max, walking bits, out-of-width, random) x reply scripts {conforming body in every optional-tail form, non-zero code with / without body, temporary code then final, reply to another command first, lost, empty / truncated at every length / extended / random body} + all ordered pairs of calls on ONE connection with the second reply shorter than the first; class P = conforming scripts; model-independent verdict: result = fresh decode by the real decoder of the first acceptable final response (error unless code 00h), every transmitted datagram opens under the reference BMC / parser to the specification's command with the caller's arguments.",
         "modelled": ["all DecodeFromBytes methods are hand models tied by correspondence"],
         "assumptions": [],
     },
     "C17": {
-        "claim": "The per-layer refinement theorems quantify over the receiver's previous state: decodeGo prev d = decodeGo fresh d for every prev and d, for all 31 layers (incl. GetDCMISensorInfoRsp whose RecordIDs slice reuses its backing array - only the visible prefix is observable). At connection level the in-session loop theorem (sendLoop_spec) shows result and transmitted bytes depend only on the keys, the command, the counter and the script - not on what earlier commands left in the layers. Tied to the code by decoding every ordered pair of a pool of valid inputs into one receiver and comparing with a fresh receiver, and by the in-session correspondence run.",
+        "claim": "The per-layer refinement theorems quantify over the receiver's previous state: decodeGo prev d = decodeGo fresh d for every prev and d, for all 31 layers (incl. GetDCMISensorInfoRsp whose RecordIDs slice reuses its backing array - only the visible prefix is observable). At connection level the in-session loop theorem (sendLoop_spec) shows result and transmitted bytes depend only on the keys, the command, the counter and the script - not on what earlier commands left in the layers. Tied to the code by decoding every ordered pair of a pool of valid inputs into one receiver and comparing with a fresh receiver, and by the in-session correspondence run."
+          ' At the level of the high-level API the value a call returns is a function of the one reply it accepts (Proofs/C07/Api.lean: value_only_from_code_zero; the command struct is fresh per call): scenario api runs every ordered pair of calls on one connection with the second reply shorter than the first and compares with a fresh decode.',
         "note": "trusted: Lean kernel; decodeGo models tied by correspondence; what a FAILED decode leaves in the receiver is not modelled (layers are rebuilt per attempt and command structs are fresh per call); session-less connection-level independence is covered by correspondence only",
         "technique": "Lean 4 proof (refinement theorems universally quantified over the receiver state; loop refinement) + differential reuse-vs-fresh correspondence",
         "ref": "§5 C17",
         "proofs": ["Bmc.Proofs.C17.Basic", "Bmc.Proofs.C17.Core", "Bmc.Proofs.C17.Sess", "Bmc.Proofs.C17.Sdr", "Bmc.Proofs.C17.Setup", "Bmc.Proofs.C17.Dcmi"],
-        "scenarios": ["dec"],
-        "rule": "as for C05 (scenario dec): every op with an earlier input decodes it into the same receiver first; all ordered pairs of a pool of 8 (thorough 24) valid encodings per layer plus layer-specific pairs with differing optional tails; verdict `stale` when the reused result differs from a fresh one.",
+        "scenarios": ["dec", "api"],
+        "rule": "as for C05 (scenario dec): every op with an earlier input decodes it into the same receiver first; all ordered pairs of a pool of 8 (thorough 24) valid encodings per layer plus layer-specific pairs with differing optional tails; verdict `stale` when the reused result differs from a fresh one."
+          " api: every high-level call x {3 suites in session, session-less}: type-directed arguments (0, max, walking bits, out-of-width, random) x reply scripts {conforming body in every optional-tail form, non-zero code with / without body, temporary code then final, reply to another command first, lost, empty / truncated at every length / extended / random body} + all ordered pairs of calls on ONE connection with the second reply shorter than the first; class P = conforming scripts; model-independent verdict: result = fresh decode by the real decoder of the first acceptable final response (error unless code 00h), every transmitted datagram opens under the reference BMC / parser to the specification's command with the caller's arguments.",
         "modelled": ["all DecodeFromBytes methods are hand models tied by correspondence"],
         "assumptions": [],
     },
@@ -102,13 +106,15 @@ PROPS = {
         "assumptions": ["a Send that fails before anything leaves the socket is outside the outcome alphabet (it still consumes a number, which is the safe choice)"],
     },
     "C11": {
-        "claim": "For every script: a returned (completion code, body) was decoded from a reply of the script whose message has the request's NetFn+1, command number, group body code and OEM enterprise (in and outside a session); a decodable reply to any other command classifies as retry and never reaches the caller.",
+        "claim": "For every script: a returned (completion code, body) was decoded from a reply of the script whose message has the request's NetFn+1, command number, group body code and OEM enterprise (in and outside a session); a decodable reply to any other command classifies as retry and never reaches the caller."
+          " At the level of the high-level API (Proofs/C07/Api.lean: value_only_from_code_zero, sessionless_value_only_from_code_zero) a VALUE returned by any wrapper comes from a reply to that wrapper's own command; scenario api places a reply to another command before the real one for every call.",
         "note": "trusted: Lean kernel; the byte-level model of V2Session.buildAndSend / V2Sessionless.buildAndSendCommand (hand-written; tied by a byte-exact correspondence run: every transmitted datagram, the result and the final counter, against the real SendCommand after a real handshake, crypto/rand replaced by an entropy stream); HMAC/AES assumed lawful (abstract Ops); backoff.Retry + context modelled as 'the script runs out'; the reference BMC in the harness (sim.go) is an independent Go transcription of the spec used for the model-free verdicts Two consecutive identical commands cannot be told apart by NetFn/command; the property does not ask for that.",
         "technique": 'Lean 4 proof (inversion of the loop refinement) + differential correspondence with replies to other commands at every script position',
         "ref": '§5 C11',
         "proofs": ['Bmc.Proofs.C11'],
-        "scenarios": ['send', 'slsend'],
-        "rule": 'send: exhaustive reply scripts over the 18-letter alphabet {final, error code, busy C0, timeout C3, reply to another command, unauthenticated forgery with foreign/own session ID, authentic but foreign session, flipped AuthCode, wrong key, flipped ciphertext, bad confidentiality pad, authentic unencrypted, garbage, non-message packet, runt message, 7-byte response, lost} to depth 3 (thorough: depth 3 exhaustively + a quarter of depth 4) on suite 3 and one level less on four more suites, random operation (incl. group/OEM NetFns), LUN and request body of 0..39 bytes per script, every request length 0..63, counters at 0/1/2^31-1/2^32-3, unserialisable requests. Non-trivial = script with a non-final outcome before its end; distinct = distinct op line. slsend: exhaustive scripts over 11 letters to depth 3 (thorough 4).',
+        "scenarios": ['send', 'slsend', 'api'],
+        "rule": 'send: exhaustive reply scripts over the 18-letter alphabet {final, error code, busy C0, timeout C3, reply to another command, unauthenticated forgery with foreign/own session ID, authentic but foreign session, flipped AuthCode, wrong key, flipped ciphertext, bad confidentiality pad, authentic unencrypted, garbage, non-message packet, runt message, 7-byte response, lost} to depth 3 (thorough: depth 3 exhaustively + a quarter of depth 4) on suite 3 and one level less on four more suites, random operation (incl. group/OEM NetFns), LUN and request body of 0..39 bytes per script, every request length 0..63, counters at 0/1/2^31-1/2^32-3, unserialisable requests. Non-trivial = script with a non-final outcome before its end; distinct = distinct op line. slsend: exhaustive scripts over 11 letters to depth 3 (thorough 4).'
+          " api: every high-level call x {3 suites in session, session-less}: type-directed arguments (0, max, walking bits, out-of-width, random) x reply scripts {conforming body in every optional-tail form, non-zero code with / without body, temporary code then final, reply to another command first, lost, empty / truncated at every length / extended / random body} + all ordered pairs of calls on ONE connection with the second reply shorter than the first; class P = conforming scripts; model-independent verdict: result = fresh decode by the real decoder of the first acceptable final response (error unless code 00h), every transmitted datagram opens under the reference BMC / parser to the specification's command with the caller's arguments.",
         "modelled": ["in-session and session-less retry loops, layer (re)initialisation, LayersDecoder chain, sequence counter: hand models tied by byte-exact correspondence"],
         "assumptions": ["a Send that fails before anything leaves the socket is outside the outcome alphabet (it still consumes a number, which is the safe choice)"],
     },
@@ -235,7 +241,8 @@ PROPS = {
           'name over 16 bytes and privilege level Callback are refused (error, nothing transmitted). The models are tied to the code byte for byte on every '
           'run (each layer through gopacket.SerializeLayers, whole datagrams through the real V2SessionlessTransport.SendCommand, the high-level API and a '
           'real NewV2Session handshake over the verif transport hook), and a reference parser written in Go, independent of library and model, must recover '
-          "the caller's fields from every transmitted datagram. In-session packets are covered by C03.",
+          "the caller's fields from every transmitted datagram. In-session packets are covered by C03."
+          ' The same is shown for the requests the HIGH-LEVEL API calls build from their arguments, in and outside a session (Proofs/C07/Api.lean: request_is_the_call, sessionless_request_is_the_call, callback_refused), and checked on the real methods by scenario api.',
  'note': 'trusted: Lean kernel; the transcription of the request tables in Spec/Requests.lean (reserved bits must be zero); hand-written serialiser models '
          "tied by byte-exact correspondence; gopacket's SerializeBuffer (Prepend/AppendBytes) modelled as list concatenation; float division in "
          'rollingAvgPeriodByte assumed exact on non-negative durations (cross-checked at every unit boundary +-1 ns and on 20000 random periods in the '
@@ -245,7 +252,7 @@ PROPS = {
               'reference-parser verdicts on transmitted datagrams',
  'ref': '§5 C06',
  'proofs': ['Bmc.Proofs.C06'],
- 'scenarios': ['enc', 'send'],
+ 'scenarios': ['enc', 'send', 'api'],
  'rule': 'enc: every request layer; each bit-field exhaustively over the whole Go byte (values beyond the wire width are class M = not claimed), all 256 '
          'session-info indexes, privilege levels, chassis controls, sensor numbers, DCMI parameters, RAKP 3 statuses; user-name lengths 0..24 and up to 1000 '
          '(over 16 must be refused); AuthCode lengths 0..40; wildcard/explicit x every algorithm byte per payload; power-reading periods at every unit '
@@ -255,7 +262,8 @@ PROPS = {
          'extreme checksum bodies. pktcmd: all 16 commands through the high-level API (GetSystemGUID, GetChannelAuthenticationCapabilities, dcmi commander, '
          "SendCommand with the library's Cmd types) with field sweeps, RetrieveSupportedCipherSuites over several pages, and the three setup datagrams of real "
          'NewV2Session handshakes (user-name lengths 0..20, every privilege byte, every 6-bit algorithm number in each position). Non-trivial = in-domain op '
-         'with a non-zero field (enc) / every in-domain datagram (pkt, pktcmd); distinct = distinct op line.',
+         'with a non-zero field (enc) / every in-domain datagram (pkt, pktcmd); distinct = distinct op line.'
+          " api: every high-level call x {3 suites in session, session-less}: type-directed arguments (0, max, walking bits, out-of-width, random) x reply scripts {conforming body in every optional-tail form, non-zero code with / without body, temporary code then final, reply to another command first, lost, empty / truncated at every length / extended / random body} + all ordered pairs of calls on ONE connection with the second reply shorter than the first; class P = conforming scripts; model-independent verdict: result = fresh decode by the real decoder of the first acceptable final response (error unless code 00h), every transmitted datagram opens under the reference BMC / parser to the specification's command with the caller's arguments.",
  'modelled': ['SerializeTo of the 14 request layers, Message/V2Session/RMCP SerializeTo, buildAndSendCommand/buildAndSendPayload layer stacking, the operation '
               'table and RemoteLUN() are hand models tied by correspondence; gopacket SerializeBuffer and layers.RMCP are modelled, not verified',
               'out of wire width (channel >= 16, privilege >= 16, chassis control >= 16, algorithm >= 64, list index >= 64, NetFn >= 64 or odd, LUN >= 4, '
